@@ -19,6 +19,8 @@ struct verif_in {
 	/* mapping index guards */
 	uint32_t map_value, mapping_max;
 	int map_ret;
+	/* run-length guards */
+	uint32_t r_pos, r_count, r_idx, r_blockmax, r_fileblockmax;
 };
 VERIF_DECLARE_IN
 
@@ -195,6 +197,59 @@ void h_map_guard(void)
 	d = MAP_RECORD(0, "content", IN.mapping_max, &A);
 	VERIF_ASSERT(IN.map_ret >= 0 && IN.map_value < IN.mapping_max, "the decoder goes on only with an index that names a mapped disk");
 	VERIF_ASSERT(g_array_calls == 1 && g_array_pos == IN.map_value && d == &MAPPED_DISK, "and uses the disk that index names");
+	VERIF_CANARY();
+}
+#endif
+
+
+/*
+ * Run lengths of the 'f' (block runs of a file), 'h' (holes / deleted runs) and 'i' (info runs) records: a run must end
+ * inside the array / the file, for EVERY 32-bit position and count - in particular when position + count does not fit
+ * in 32 bits.  The guards are the only thing between a damaged count (the CRC is compared at the very end of the file)
+ * and loops that run `count` times.
+ */
+#ifdef VERIF_RUN_REGIONS
+static void r_abort(void)
+{
+#ifdef VERIF_CBMC
+	__CPROVER_assume(0);
+#else
+	printf("VERIF-REJECTED\n");
+	fflush(stdout);
+	_exit(0);
+#endif
+}
+#define os_abort r_abort
+#include "region_run_i.c"
+#include "region_run_h.c"
+#include "region_run_f.c"
+#undef os_abort
+
+void h_run_i(void)
+{
+	VERIF_INPUTS();
+	VERIF_ASSUME(IN.r_pos < IN.r_blockmax); /* loop condition of the decoder */
+	region_run_i(0, "content", IN.r_pos, IN.r_count, IN.r_blockmax, 0);
+	VERIF_ASSERT((uint64_t)IN.r_pos + IN.r_count <= IN.r_blockmax, "an info run accepted by the decoder ends inside the array");
+	VERIF_CANARY();
+}
+void h_run_h(void)
+{
+	VERIF_INPUTS();
+	VERIF_ASSUME(IN.r_pos < IN.r_blockmax);
+	region_run_h(0, "content", IN.r_pos, IN.r_count, IN.r_blockmax, 0);
+	VERIF_ASSERT((uint64_t)IN.r_pos + IN.r_count <= IN.r_blockmax, "a hole run accepted by the decoder ends inside the array");
+	VERIF_CANARY();
+}
+void h_run_f(void)
+{
+	static struct snapraid_file FL;
+	VERIF_INPUTS();
+	FL.blockmax = IN.r_fileblockmax;
+	VERIF_ASSUME(IN.r_idx < IN.r_fileblockmax);
+	region_run_f(0, "content", IN.r_pos, IN.r_count, IN.r_idx, IN.r_blockmax, &FL, 0);
+	VERIF_ASSERT((uint64_t)IN.r_idx + IN.r_count <= IN.r_fileblockmax, "a block run accepted by the decoder ends inside the file");
+	VERIF_ASSERT((uint64_t)IN.r_pos + IN.r_count <= IN.r_blockmax, "a block run accepted by the decoder ends inside the array");
 	VERIF_CANARY();
 }
 #endif
